@@ -498,7 +498,13 @@ namespace {
 
     rc::Gen< Case > gen_case()
     {
-        return rc::gen::build< Case >( rc::gen::set( &Case::cfg, verif::range< int >( 0, static_cast< int >( configs().size() ) - 1 ) ),
+        // configurations with yes/no input and a display (numeric comparison, asynchronous user answers) get three tickets
+        std::vector< int > tickets;
+        for ( int i = 0; i != static_cast< int >( configs().size() ); ++i )
+            tickets.insert( tickets.end(), configs()[ i ].name.find( "in=yesno out=display" ) != std::string::npos ? 3 : 1, i );
+        const auto cfg_gen = rc::gen::map( verif::range< int >( 0, static_cast< int >( tickets.size() ) - 1 ), [ tickets ]( int t ) { return tickets[ t ]; } );
+
+        return rc::gen::build< Case >( rc::gen::set( &Case::cfg, cfg_gen ),
             rc::gen::set( &Case::seed, verif::range< std::uint32_t >( 1, 0xffffff ) ),
             rc::gen::set( &Case::user_mode, rc::gen::weightedElement< int >( { { 5, 0 }, { 3, 1 }, { 1, 2 } } ) ),
             rc::gen::set( &Case::oob, rc::gen::weightedElement< int >( { { 2, 0 }, { 1, 1 } } ) ),
@@ -1046,7 +1052,7 @@ namespace {
             const bool   sc       = cf.manager == LESC ? true : ( b & 4 ) != 0;
             if ( sc )
                 auth_req |= 8;
-            return bytes{ 0x01, static_cast< std::uint8_t >( a % 5 ), static_cast< std::uint8_t >( ( a / 5 ) % 3 == 0 ? 1 : 0 ), auth_req, static_cast< std::uint8_t >( 7 + ( b >> 4 ) % 10 ),
+            return bytes{ 0x01, static_cast< std::uint8_t >( a % 5 ), static_cast< std::uint8_t >( ( a / 5 ) % 6 == 0 ? 1 : 0 ), auth_req, static_cast< std::uint8_t >( 7 + ( b >> 4 ) % 10 ),
                 static_cast< std::uint8_t >( ( b >> 8 ) & 7 ), static_cast< std::uint8_t >( ( b >> 11 ) & 7 ) };
         }
 
@@ -1136,6 +1142,10 @@ namespace {
 
         void next( int a, int b )
         {
+            // a user who still looks at the display of a pairing that ended meanwhile
+            if ( g_io.pending && st != S_WAIT && a % 3 == 0 )
+                return user( b % 2 == 0 );
+
             switch ( st )
             {
             case S_KEYS:
